@@ -151,7 +151,7 @@ def rel_a_v4(tier):
         yield spell(T.PREFIX["4.0"], asg, V4_ORDER), vs, (0,)
 
     small = v4_base_set("quick")
-    small = small[::17] if tier == "thorough" else small[::101]
+    small = spaces.thin(small, 17) if tier == "thorough" else spaces.thin(small, 101)
     return [Rel("a.v4.modified=base", "4.0", v4_base_set(tier), expand),
             Rel("a.v4.modified=base.all_2048_subsets", "4.0", small, expand_all)]
 
@@ -160,7 +160,7 @@ def rel_b_v4(tier):
     outer = v4_base_set(tier)
     # with and without Safety delivered through MSI/MSA
     r1 = _rel_b("b.v4.X=equivalent", "4.0", outer, V4_ORDER, V4_EQUIV, V4_OTHER, "X")
-    r2 = _rel_b("b.v4.X=equivalent+safety", "4.0", outer if tier == "thorough" else outer[::7],
+    r2 = _rel_b("b.v4.X=equivalent+safety", "4.0", outer if tier == "thorough" else spaces.thin(outer, 7),
                 V4_ORDER, V4_EQUIV, V4_OTHER, "X", extra={"MSI": "S", "MSA": "H"})
     return [r1, r2]
 
@@ -190,7 +190,7 @@ def rel_c_v4(tier):
             for g in ("g1", "g2", "g36", "g4")] + [spaces.v4_group_parts(("E",))]
     macro = spaces.cross(spaces.cross(full[0], full[1]), spaces.cross(spaces.cross(full[2], full[3]), full[4]))
     if tier != "thorough":
-        macro = macro[::27]
+        macro = spaces.thin(macro, 27)
     return [Rel("c.v4.single_supplemental", "4.0", v4_base_set(tier), expand_single),
             Rel("c.v4.all_supplemental_spellings", "4.0", macro, expand_all)]
 
@@ -242,7 +242,7 @@ def rel_d_v3(fam, tier):
 
     outer_p = spaces.v3_base_all()
     if tier != "thorough":
-        outer_p = outer_p[::5]
+        outer_p = spaces.thin(outer_p, 5)
     return [Rel("d.v%s.full_override" % fam, fam, spaces.v3_base_all(), expand),
             Rel("d.v%s.partial_override" % fam, fam, outer_p, expand_partial)]
 
@@ -283,7 +283,7 @@ def rel_d_v4(tier):
             yield spell(T.PREFIX["4.0"], asg, V4_ORDER), vs, (0,)
 
     return [Rel("d.v4.full_override", "4.0", outer, expand),
-            Rel("d.v4.partial_override", "4.0", outer if tier == "thorough" else outer[::3],
+            Rel("d.v4.partial_override", "4.0", outer if tier == "thorough" else spaces.thin(outer, 3),
                 expand_partial)]
 
 
@@ -319,7 +319,7 @@ def rel_e(fam, tier):
                [spell(T.PREFIX[fam], dict(bt, **e), order) for e in es], (0, 1))
 
     if tier != "thorough":
-        outer = outer[::9] if fam == "2" else outer[::27]
+        outer = spaces.thin(outer, 9) if fam == "2" else spaces.thin(outer, 27)
     return Rel("e.v%s.base_and_temporal_slots" % fam, fam, outer, expand)
 
 
